@@ -194,6 +194,16 @@ func Corpus() []*Schema {
 		{Name: "Outer", Fields: []F{{"n", 1, "int32", "opt"}, {"mid", 2, "msg:Outer.Mid", "opt"}}, Nested: []M{{Name: "Mid", Fields: []F{{"in", 1, "msg:Outer.Mid.Inner", "opt"}},
 			Nested: []M{{Name: "Inner", Fields: []F{{"s", 1, "string", "opt"}, {"deep", 2, "msg:Outer.Mid.Inner.Deepest", "opt"}},
 				Nested: []M{{Name: "Deepest", Fields: []F{{"f", 1, "float", "opt"}, {"d", 2, "double", "opt"}}}}}}}}}}})
+	// proto2 declared defaults, on optional fields and on extensions (all kinds that can have one): an unset field /
+	// extension must stay unset on the wire whatever its getter answers
+	cs = append(cs, &Schema{ID: "defaults", Syntax: "proto2", Enums: []E{color}, Messages: []M{
+		{Name: "Base", Fields: []F{{"id", 1, "int32=7", "opt"}, {"name", 2, "string=anon", "opt"}, {"on", 3, "bool=true", "opt"}, {"ratio", 4, "double=2.5", "opt"},
+			{"tint", 5, "enum:Color=COLOR_V2", "opt"}, {"blob", 6, "bytes=xyz", "opt"}, {"big", 7, "uint64=18446744073709551615", "opt"}, {"neg", 8, "sint32=-5", "opt"},
+			{"f", 9, "float=-0.5", "opt"}, {"fx", 10, "fixed32=9", "opt"}, {"plain", 11, "int32", "opt"}}, Ranges: [][2]int32{{100, 200}}},
+		{Name: "H", Ext: []F{{"x_retries", 100, "int32=5", "ext:Base"}, {"x_region", 101, "string=eu", "ext:Base"}, {"x_flag", 102, "bool=true", "ext:Base"},
+			{"x_tint", 103, "enum:Color=COLOR_V1", "ext:Base"}, {"x_ratio", 104, "double=1.5", "ext:Base"}, {"x_blob", 105, "bytes=ab", "ext:Base"},
+			{"x_z", 106, "sint64=-9", "ext:Base"}, {"x_u", 107, "uint32=3", "ext:Base"}, {"x_plain", 108, "int64", "ext:Base"}}}},
+		FileExt: []F{{"x_top", 120, "fixed64=11", "ext:Base"}}})
 	// two messages whose short names coincide when lower-cased: one output file name for both with
 	// filepermessage=true (open finding B15)
 	cs = append(cs, &Schema{ID: "samename", Syntax: "proto3", Messages: []M{{Name: "Outer", Fields: []F{{"a", 1, "int32", "opt"}},
